@@ -1,7 +1,7 @@
 (* C07 — cmp is a total preorder over mixed types; sort / dictable.sort follow it stably.
    Property theorems only; each is closed by a lemma of proofs/P_sort.v.  `val` is the whole mixed-type universe
    (None, bools, ints/floats as exact half-integers, NaN objects with identity, +-inf, strings, datetimes and
-   arbitrarily nested tuples / lists / string-keyed dicts of them); every statement is for ALL values / lists / tables. *)
+   arbitrarily nested tuples / lists / dicts of them (dict keys of any, also mixed, types)); every statement is for ALL values / lists / tables. *)
 From Coq Require Import ZArith List Bool Lia Permutation Sorted.
 From PB Require Import model.M_sort proofs.P_sort.
 Import ListNotations.
@@ -85,7 +85,7 @@ Example C07_example :
   rect 5 t /\ distinct_vals [VStr [98%N]; VNum false 4] /\
   dsort_by [KCol [97%N]] t = [([97%N], [VNone; VNum false 4; VNum true 4; VNaN 1; VStr [98%N]]); ([98%N], [VNum false 6; VNum false 0; VNum false 4; VNum false 2; VNum false 8])] /\
   dsort_byval [([97%N], [VStr [98%N]; VNum false 4])] t = [([97%N], [VStr [98%N]; VNum false 4; VNum true 4; VNaN 1; VNone]); ([98%N], [VNum false 8; VNum false 0; VNum false 4; VNum false 2; VNum false 6])] /\
-  cmp (VDict [([98%N], VNum false 4); ([97%N], VList [VNaN 0])]) (VDict [([97%N], VList [VInf true]); ([98%N], VNum true 4)]) = 0.
+  cmp (VDict [(VStr [98%N], VNum false 4); (VNum false 2, VList [VNaN 0]); (VNone, VNone)]) (VDict [(VNone, VNone); (VNum true 2, VList [VInf true]); (VStr [98%N], VNum true 4)]) = 0.
 Proof.
   cbv zeta. split; [repeat constructor|]. split; [|vm_compute; auto].
   split; [repeat constructor|]. intros i j Hi Hj. cbn in Hi, Hj.
